@@ -3,6 +3,7 @@ constant, masked empirical backup, Q-dictionary labelling, greedy policy."""
 from __future__ import annotations
 
 import ast
+import copy
 from fractions import Fraction
 from typing import Dict, List, Optional
 
@@ -29,6 +30,52 @@ RULES = ("TEN-6 allocation extent and index source use the same list; ALG-4 opti
          "call carries this step; LAB-1 Q dictionary labels; POL-1 greedy policy; WIRE-1 train_on wiring")
 
 
+
+# ------------------------------------------------------------------------------------------------------------------
+# canonical spelling of an expression: every single-assignment temporary of the enclosing function is replaced by its
+# defining expression, so a text comparison does not depend on which intermediate values the code chose to name.
+def _top(fi: FunctionInfo) -> FunctionInfo:
+    while getattr(fi, "parent", None) is not None:
+        fi = fi.parent
+    return fi
+
+
+class _Inline(ast.NodeTransformer):
+    def __init__(self, defs):
+        self.defs = defs
+        self.open: List[str] = []
+
+    def visit_Name(self, n):
+        if isinstance(n.ctx, ast.Load) and n.id in self.defs and n.id not in self.open and len(self.open) < 25:
+            self.open.append(n.id)
+            r = self.visit(copy.deepcopy(self.defs[n.id]))
+            self.open.pop()
+            return r
+        return n
+
+
+def expand(fi: FunctionInfo, node: ast.AST) -> ast.AST:
+    """copy of `node` with the single-assignment locals of fi's outermost function inlined (recursively)."""
+    return _Inline(pat.fn_defs(_top(fi).node)).visit(copy.deepcopy(node))
+
+
+def canon(fi: FunctionInfo, node) -> Optional[str]:
+    if node is None:
+        return None
+    if isinstance(node, str):
+        node = ast.parse(node, mode="eval").body
+    return pat.txt(expand(fi, node))
+
+
+def defined_as(S: "pat.Snips", role: str, rhs: str, env):
+    """(node, env) when the role is defined as `rhs` — by a statement `role = rhs`, or in place when the code did not name it."""
+    cur = (env or {}).get(role)
+    if isinstance(cur, pat.Virtual):
+        e = S.m(rhs, cur.node, env)
+        return (cur.node, e) if e is not None else (None, None)
+    return S.first(f"V_{role} = {rhs}", env)
+
+
 def run(ctx: Ctx):
     P = ctx.P
     G = CallGraph(P, ctx.X)
@@ -36,45 +83,50 @@ def run(ctx: Ctx):
     init = C.methods["_init_training"]
     tr = C.methods["_training"]
     # ---------------- TEN-6 index spaces
+    mdp_i = init.positional_params[1] if len(init.positional_params) > 1 else "mdp"
+    Si = pat.Snips(init)
     src_i = {ast.unparse(n.targets[0]): n for n in fn_body_nodes(init) if isinstance(n, ast.Assign)}
     ns_def, na_def = src_i.get("self.n_states"), src_i.get("self.n_actions")
 
-    def len_of(n):
-        if n is not None and isinstance(n.value, ast.Call) and isinstance(n.value.func, ast.Name) and n.value.func.id == "len":
-            return ast.unparse(n.value.args[0])
-        return None
-    s_space, a_space = len_of(ns_def), len_of(na_def)
+    def len_of(attr):
+        n, e = Si.first(f"self.{attr} = len(E_l)")
+        return canon(init, e["l"]) if e else None
+    s_space, a_space = len_of("n_states"), len_of("n_actions")
     idx_calls = [c for c in ast.walk(tr.node) if isinstance(c, ast.Call) and isinstance(c.func, ast.Attribute) and c.func.attr == "index"]
-    idx_lists = sorted({ast.unparse(c.func.value) for c in idx_calls})
+    idx_lists = sorted({canon(tr, c.func.value) for c in idx_calls})
     ctx.check(s_space is not None and idx_lists == [s_space], "TEN-6", init, ns_def if ns_def is not None else init.node,
               f"state axis extent len({s_space}) matches the list states are indexed through {idx_lists}", "",
               f"state arrays are allocated with len({s_space}) rows but indexed with positions in {idx_lists}: when the two collections differ in size "
               f"(e.g. unreachable states in the state list) indexing goes out of bounds or aliases states")
-    ia = [n for n, _ in pat.find(tr.node, "V_m = dict(enumerate(E_l))")]
-    ok = bool(ia) and a_space is not None and ast.unparse(ia[0].value) == f"dict(enumerate({a_space}))"
-    ctx.check(ok, "TEN-6", tr, ia[0] if ia else tr.node, f"action indices are positions in {a_space}, the list the action axis was sized by", "",
-              f"action axis is sized by len({a_space}) but action indices are decoded with `{ast.unparse(ia[0].value) if ia else None}`")
+    St = pat.Snips(tr)
+    ia = St.find("V_m = dict(enumerate(E_l))")
+    dec = canon(tr, ia[0][1]["l"]) if ia else None
+    ok = bool(ia) and a_space is not None and dec == a_space
+    ctx.check(ok, "TEN-6", tr, ia[0][0] if ia else tr.node, f"action indices are positions in {a_space}, the list the action axis was sized by", "",
+              f"action axis is sized by len({a_space}) but action indices are decoded with `dict(enumerate({dec}))`")
     shapes = {"self.rewards": ["n_states", "n_actions"], "self.transitions": ["n_states", "n_actions", "n_states"], "self.s_a_counts": ["n_states", "n_actions"]}
     for var, want in shapes.items():
         n = src_i.get(var)
-        got = [ast.unparse(e).replace("self.", "") for e in n.value.args[0].elts] if n is not None and isinstance(n.value, ast.Call) and n.value.args and isinstance(n.value.args[0], ast.Tuple) else None
+        _, e = Si.first(f"{var} = ANY(E_shape, REST, REST=ANY)")
+        shp = expand(init, e["shape"]) if e else None
+        got = [pat.txt(x).replace("self.", "") for x in shp.elts] if isinstance(shp, ast.Tuple) else None
         ctx.check(got == want, "TEN-6", init, n if n is not None else init.node, f"{var} allocated as {want}", "", f"`{var}` is allocated with shape {got}")
     # ---------------- ALG-4 optimistic constant
     qd = src_i.get("self.q_matrix")
     if qd is not None:
-        p = alg.normalise(qd.value)
+        p = alg.normalise(expand(init, qd.value))
         mons = list(p.items())
         ok = len(mons) == 1 and mons[0][1] == 1
         atoms = dict(mons[0][0]) if ok else {}
         ones = [k for k in atoms if k.startswith("np.ones(")]
-        disc = [k for k in atoms if "1 - mdp.discount_rate" in k.replace("(", "").replace(")", "") or "1-mdp.discount_rate" in k]
+        disc = [k for k in atoms if f"1 - {mdp_i}.discount_rate" in k.replace("(", "").replace(")", "") or f"1-{mdp_i}.discount_rate" in k]
         ok = ok and len(ones) == 1 and atoms.get("self.rmax") == 1 and len(disc) == 1 and len(atoms) == 3 and "(self.n_states, self.n_actions)" in ones[0]
         ok = ok and (disc[0].startswith("1/") or atoms[disc[0]] == -1)
         ctx.check(ok, "ALG-4", init, qd, "initial Q = rmax * 1/(1 - gamma) for every (state, action)", alg.show(p), f"initial Q normalises to `{alg.show(p)}`")
     else:
         ctx.violation("ALG-4", init, init.node, "optimistic initialisation", "q_matrix is not initialised")
     asserts = [a for a in fn_body_nodes(init) if isinstance(a, ast.Assert)]
-    ok = any(ast.unparse(a.test).replace(" ", "") == "self.rmax==np.max(mdp.reward_matrix)" for a in asserts)
+    ok = any(Si.m(f"self.rmax == np.max({mdp_i}.reward_matrix)", a.test) is not None for a in asserts)
     ctx.check(ok, "ALG-4", init, asserts[0] if asserts else init.node, "rmax is asserted to be the maximum reward", "", "the rmax precondition is no longer asserted")
     # ---------------- SIM-8 count-limited update
     ob = C.methods["_observe"]
@@ -84,33 +136,52 @@ def run(ctx: Ctx):
         ctx.violation("SIM-8", ob, ob.node, "count guard", "the model update is not guarded by the sample count")
     else:
         g = ifs[0]
-        t = g.test
+        t = expand(ob, g.test)
         cnt = f"self.s_a_counts[{st}, {ac}]"
         views = cmp_views(t)
         ok_shape = any(l == cnt and r == "self.m" for l, op, r in views)
         ctx.check((cnt, "<", "self.m") in views, "SIM-8", ob, g, "samples are admitted only while count < m (strictly)", norm(t),
                   f"guard `{norm(t)}` admits more than the first m samples of a pair into the empirical model" if ok_shape else f"guard is `{norm(t)}`")
-        incs = {ast.unparse(n.target): n for n in g.body if isinstance(n, ast.AugAssign) and isinstance(n.op, ast.Add)}
-        c = incs.get(f"self.s_a_counts[{st}, {ac}]")
-        ctx.check(c is not None and ast.unparse(c.value) == "1", "SIM-8", ob, c if c is not None else g, "the tested counter is incremented by 1 for the same (state, action)", "",
+        incs = {canon(ob, n.target): n for n in g.body if isinstance(n, ast.AugAssign) and isinstance(n.op, ast.Add)}
+        c = incs.get(cnt)
+        ctx.check(c is not None and canon(ob, c.value) == "1", "SIM-8", ob, c if c is not None else g, "the tested counter is incremented by 1 for the same (state, action)", "",
                   "the counter that is tested is not the one incremented (or not by 1)")
         r = incs.get(f"self.rewards[{st}, {ac}]")
-        ctx.check(r is not None and ast.unparse(r.value) == rw, "SIM-8", ob, r if r is not None else g, "reward sum accumulates this step's reward", "", "reward accumulation changed")
+        ctx.check(r is not None and canon(ob, r.value) == rw, "SIM-8", ob, r if r is not None else g, "reward sum accumulates this step's reward", "", "reward accumulation changed")
         tt = incs.get(f"self.transitions[{st}, {ac}, {nx}]")
-        ctx.check(tt is not None and ast.unparse(tt.value) == "1", "SIM-8", ob, tt if tt is not None else g, "transition count of (state, action, next_state) incremented", "", "transition counting changed")
+        ctx.check(tt is not None and canon(ob, tt.value) == "1", "SIM-8", ob, tt if tt is not None else g, "transition count of (state, action, next_state) incremented", "", "transition counting changed")
         trig = [n for n in g.body if isinstance(n, ast.If)]
-        ok = bool(trig) and (f"self.s_a_counts[{st}, {ac}]", "==", "self.m") in cmp_views(trig[0].test) and "self._value_iteration(" in ast.unparse(trig[0])
+        ok = bool(trig) and (cnt, "==", "self.m") in cmp_views(expand(ob, trig[0].test)) and any(
+            isinstance(x, ast.Call) and pat.txt(x.func) == "self._value_iteration" for x in ast.walk(trig[0]))
         ctx.check(ok, "SIM-8", ob, trig[0] if trig else g, "the model is re-solved exactly when a pair reaches the threshold", "", "re-solve trigger changed")
         if trig and c is not None:
             ctx.check(g.body.index(trig[0]) > g.body.index(c), "SIM-8", ob, trig[0], "threshold test follows the increment", "", "threshold is tested before the count is incremented")
-    # ---------------- VI-1 masked empirical backup (patterns with metavariables: independent of local names)
+    # ---------------- VI-1 masked empirical backup (roles bound by patterns, definitions first: a role the code did not name is
+    # bound to the expression itself, so named / further extracted / inlined spellings are the same to the rule)
     vi = C.methods["_value_iteration"]
     gam = vi.positional_params[1] if len(vi.positional_params) > 1 else "gamma"
-    stmts = [n for n in ast.walk(vi.node) if isinstance(n, ast.stmt)]
-    mn, me = pat.first(vi.node, "V_mask = self.s_a_counts >= self.m", nodes=stmts)
+    Sv = pat.Snips(vi)
+    stmts = Sv.stmts
+    MASK, VMAX, REW = "self.s_a_counts >= self.m", "np.max(self.q_matrix, axis=-1)", "self.rewards / V_cnt"
+    TRANS = "self.transitions / V_cnt[:, :, None]"
+    BACKUP = f"V_newq = V_R + {gam} * np.einsum(E_spec, V_P, V_v)"
+    mn, me = Sv.first(f"V_mask = {MASK}")
     ctx.check(mn is not None, "VI-1", vi, mn if mn is not None else vi.node, "known pairs: count >= m", "", "mask of known pairs (count >= m) not found")
-    env = dict(me or {})
-    qn, qe = pat.first(vi.node, "self.q_matrix[V_mask] = V_newq[V_mask]", env, nodes=stmts)
+    env_m = dict(me or {})
+    env = dict(env_m)
+    for role, rhs in (("cnt", "np.where(self.s_a_counts == 0, 1, self.s_a_counts)"), ("v", VMAX), ("R", REW), ("P", TRANS)):
+        _, e = Sv.first(f"V_{role} = {rhs}", env)
+        if e:
+            env = e
+    STORE = "self.q_matrix[V_mask] = V_newq[V_mask]"
+    sol = Sv.solve([BACKUP, STORE], env) or Sv.solve([BACKUP, STORE], env_m)    # second form: roles read off the backup itself, so that
+    if sol is not None:                                                         # a wrong definition is diagnosed below
+        be, (bn, qn) = sol
+        env = dict(be)
+    else:
+        bn = be = None
+        qn, qe = Sv.first(STORE, env_m)
+        env = dict(qe or env_m)
     q_stores = [n for n in stmts if isinstance(n, (ast.Assign, ast.AugAssign)) and "self.q_matrix" in ast.unparse(n.targets[0] if isinstance(n, ast.Assign) else n.target)]
     if qn is None and q_stores:
         ctx.violation("VI-1", vi, q_stores[0], "only known pairs are overwritten (mask on both sides)",
@@ -119,35 +190,35 @@ def run(ctx: Ctx):
         ctx.check(qn is not None, "VI-1", vi, qn if qn is not None else vi.node, "only known pairs are overwritten (mask on both sides)", "", "no masked store into the Q matrix")
     other = [n for n in q_stores if n is not qn]
     ctx.check(not other, "VI-1", vi, other[0] if other else vi.node, "no other store into q_matrix", "", f"`{norm(other[0]) if other else ''}` writes Q outside the mask")
-    env = dict(qe or env)
-    newq = env.get("newq")
-    nq = next((n for n in stmts if isinstance(n, ast.Assign) and isinstance(n.targets[0], ast.Name) and n.targets[0].id == newq), None) if newq else None
+    # the value that is stored: the backup matched above, else whatever defines the stored name
+    nq = bn
+    if nq is None and isinstance(env.get("newq"), str):
+        nq = next((n for n in stmts if isinstance(n, ast.Assign) and isinstance(n.targets[0], ast.Name) and n.targets[0].id == env["newq"]), None)
     if nq is not None:
-        bn, be = pat.first(nq, f"V_newq = V_R + {gam} * np.einsum(E_spec, V_P, V_v)", env, nodes=[nq])
-        p_ = alg.normalise(nq.value)
+        p_ = alg.normalise(expand(vi, nq.value if isinstance(nq, ast.Assign) else nq))
         ctx.check(bn is not None, "VI-1", vi, nq, "backup = R^ + gamma * (P^ . max_a Q)", alg.show(p_), f"backup normalises to `{alg.show(p_)}`")
         if bn is not None:
             env = be
-            spec = be["spec"]
+            spec = expand(vi, be["spec"])
             ok = isinstance(spec, ast.Constant) and str(spec.value).replace(" ", "") == "san,n->sa"
             ctx.check(ok, "VI-1", vi, nq, "future term contracts the successor axis of P^ with the state values", "", f"future term contracts `{pat.txt(spec)}`")
-            vn, _ = pat.first(vi.node, "V_v = np.max(self.q_matrix, axis=-1)", env, nodes=stmts)
+            vn, _ = defined_as(Sv, "v", VMAX, env)
             ctx.check(vn is not None, "VI-1", vi, vn if vn is not None else nq, "state value = max over actions of Q", "", "state values are not max_a Q")
-            rn, re_ = pat.first(vi.node, "V_R = self.rewards / V_cnt", env, nodes=stmts)
+            rn, re_ = defined_as(Sv, "R", REW, env)
             ctx.check(rn is not None, "VI-1", vi, rn if rn is not None else nq, "R^ = reward sum / count", "", "empirical reward changed")
             if re_:
                 env = re_
-            tn, _ = pat.first(vi.node, "V_P = self.transitions / V_cnt[:, :, None]", env, nodes=stmts)
+            tn, _ = defined_as(Sv, "P", TRANS, env)
             ctx.check(tn is not None, "VI-1", vi, tn if tn is not None else nq, "P^ = transition counts / count", "", "empirical transition model changed")
-            sn, _ = pat.first(vi.node, "V_P[~V_mask] = self._self_transition_mat[~V_mask]", env, nodes=stmts)
+            sn, _ = Sv.first("V_P[~V_mask] = self._self_transition_mat[~V_mask]", env)
             ctx.check(sn is not None, "VI-1", vi, sn if sn is not None else nq, "unknown pairs are self-loops", "", "unknown pairs are not modelled as self-loops")
     else:
         ctx.unknown("VI-1", vi, vi.node, "empirical backup", "definition of the new Q not found")
     brk = [n for n in ast.walk(vi.node) if isinstance(n, ast.If) and any(isinstance(b, ast.Break) for b in n.body)]
-    ok = bool(brk) and pat.m("np.all(np.abs(self.q_matrix[V_mask] - V_newq[V_mask]) < self.bellman_convergence_diff)", brk[0].test, env) is not None
+    ok = bool(brk) and Sv.m("np.all(np.abs(self.q_matrix[V_mask] - V_newq[V_mask]) < self.bellman_convergence_diff)", brk[0].test, env) is not None
     ctx.check(ok, "VI-1", vi, brk[0] if brk else vi.node, "re-solve stops when all known pairs changed by less than the configured tolerance", "", "stop rule of the re-solve changed")
     stm = C.methods["_self_transition_mat"]
-    sn2, _ = pat.first(stm.node, "V_m[np.arange(self.n_states), :, np.arange(self.n_states)] = 1")
+    sn2, _ = pat.Snips(stm).first("V_m[np.arange(self.n_states), :, np.arange(self.n_states)] = 1")
     ctx.check(sn2 is not None, "VI-1", stm, stm.node, "self-loop tensor: P(s | s, a) = 1", "", "self-loop tensor changed")
     # ---------------- training loop
     loops = SL.find_loops(tr)
@@ -159,40 +230,43 @@ def run(ctx: Ctx):
     for d in cfg.reaching(cfg.node_for(L.sample_stmt), L.a):
         ok = d.value is not None and depends_on(tr, d.stmt, d.value, L.s)
         ctx.check(ok, "SIM-2", tr, d.stmt, f"action `{L.a}` chosen at the current state", "", "action is not chosen at the current state")
+    Sl = pat.Snips(tr, literals=[x for x in (L.s, L.ns, L.a) if x])
+    s_idx, ns_idx = f"{L.model}.state_list.index({L.s})", f"{L.model}.state_list.index({L.ns})"
     act = [c for c in ast.walk(L.loop) if isinstance(c, ast.Call) and ast.unparse(c.func) == "self._act"]
-    ok = bool(act) and ast.unparse(act[0].args[0]) == f"{L.model}.state_list.index({L.s})"
+    ok = bool(act) and Sl.m(f"self._act({s_idx}, REST, REST=ANY)", act[0]) is not None
     ctx.check(ok, "SIM-2", tr, act[0] if act else L.loop, "action selection reads the Q row of the current state's index", "", "_act is not given the current state's index")
     rvar = SL.sim3_reward_args(ctx, L)
     SL.sim4_advance(ctx, L, must_follow=("_observe", "end_of_timestep"))
     obs = [c for c in ast.walk(L.loop) if isinstance(c, ast.Call) and ast.unparse(c.func) == "self._observe"]
     if obs:
         got = [ast.unparse(a) for a in obs[0].args]
-        ai = next((d.var for d in cfg.defs if d.stmt in [n for n in L.body] and d.value is not None and "_act" in ast.unparse(d.value)), "ai")
-        want = [f"{L.model}.state_list.index({L.s})", ai, rvar, f"{L.model}.state_list.index({L.ns})"]
-        ctx.check(got == want, "OBS-1", tr, obs[0], f"_observe({', '.join(want)})", "", f"the model is updated with ({', '.join(got)}), not with this step's (state, action, reward, successor)")
+        ai = next((d.var for d in cfg.defs if d.stmt in [n for n in L.body] and d.value is not None and "_act" in ast.unparse(d.value)), None)
+        want = [s_idx, ai or (ast.unparse(act[0]) if act else "ai"), rvar or f"{L.model}.reward({L.s}, {ast.unparse(L.a_expr)}, {L.ns})", ns_idx]
+        ok = [canon(tr, a) for a in obs[0].args] == [canon(tr, w) for w in want]      # compared with temporaries expanded on both sides
+        ctx.check(ok, "OBS-1", tr, obs[0], f"_observe({', '.join(want)})", "", f"the model is updated with ({', '.join(got)}), not with this step's (state, action, reward, successor)")
         gm = kwarg(obs[0], "gamma")
-        ctx.check(gm is not None and ast.unparse(gm) == f"{L.model}.discount_rate", "OBS-1", tr, obs[0], "re-solve uses the MDP's discount rate", "", "discount passed to the re-solve is not the MDP's")
+        ctx.check(gm is not None and canon(tr, gm) == f"{L.model}.discount_rate", "OBS-1", tr, obs[0], "re-solve uses the MDP's discount rate", "", "discount passed to the re-solve is not the MDP's")
     else:
         ctx.violation("OBS-1", tr, L.loop, "model update per step", "the experienced step is never fed to the model")
     rets = [n for n in fn_body_nodes(tr) if isinstance(n, ast.Return)]
-    ctx.check(bool(rets) and ast.unparse(rets[0].value) == "self.q_matrix", "WIRE-1", tr, rets[0] if rets else tr.node, "training returns the learned Q matrix", "", "training returns something else")
+    ctx.check(bool(rets) and canon(tr, rets[0].value) == "self.q_matrix", "WIRE-1", tr, rets[0] if rets else tr.node, "training returns the learned Q matrix", "", "training returns something else")
     # ---------------- labels
     cq = C.methods["_create_q"]
     qm, mdp_p = cq.positional_params[1:3]
-    s_map, e1 = pat.first(cq.node, f"V_i2s = dict(enumerate({mdp_p}.state_list))")
-    a_map, e2 = pat.first(cq.node, f"V_i2a = dict(enumerate({mdp_p}.action_list))")
-    env = dict(e1 or {}); env.update(e2 or {})
-    st_, e3 = pat.first(cq.node, f"V_q[V_s][V_a] = {qm}[V_si, V_ai]", env)
-    ok = s_map is not None and a_map is not None and st_ is not None
-    if ok:
-        env = e3
-        ok = pat.first(cq.node, "V_s = V_i2s[V_si]", env)[0] is not None and pat.first(cq.node, "V_a = V_i2a[V_ai]", env)[0] is not None
-    ctx.check(ok, "LAB-1", cq, st_ if st_ is not None else cq.node, "q[state_list[i]][action_list[j]] = q_matrix[i, j]", "", "Q dictionary labelling changed")
+    Sq = pat.Snips(cq)
+    LABEL = f"V_q[V_s][V_a] = {qm}[V_si, V_ai]"
+    sol = Sq.solve([f"V_i2s = dict(enumerate({mdp_p}.state_list))", f"V_i2a = dict(enumerate({mdp_p}.action_list))",
+                    "V_s = V_i2s[V_si]", "V_a = V_i2a[V_ai]", LABEL])
+    st_ = sol[1][-1] if sol else Sq.first(LABEL)[0]
+    ctx.check(sol is not None, "LAB-1", cq, st_ if st_ is not None else cq.node, "q[state_list[i]][action_list[j]] = q_matrix[i, j]", "", "Q dictionary labelling changed")
     ok = False
-    if st_ is not None:
+    if sol is not None:
+        env = sol[0]
         l0 = [n for n in ast.walk(cq.node) if isinstance(n, ast.For) and isinstance(n.target, ast.Name)]
-        rng_ = {n.target.id: ast.unparse(n.iter).replace(" ", "") for n in l0}
-        ok = rng_.get(env["si"]) == f"range({qm}.shape[0])" and rng_.get(env["ai"]) == f"range({qm}.shape[1])"
+        rows = [n for n in l0 if n.target.id == env["si"]]
+        cols = [n for n in l0 if n.target.id == env["ai"]]
+        ok = bool(rows) and bool(cols) and all(Sq.m(f"range({qm}.shape[0])", n.iter) is not None for n in rows) \
+            and all(Sq.m(f"range({qm}.shape[1])", n.iter) is not None for n in cols)
     ctx.check(ok, "LAB-1", cq, cq.node, "rows iterate axis 0, columns axis 1", "", "label loops iterate the wrong axes")
     # ---------------- policy and wiring
     cp = C.methods["_create_policy"]
@@ -201,32 +275,33 @@ def run(ctx: Ctx):
         f = pol[0]
         sp = f.positional_params[0]
         qp = cp.positional_params[2]
-        mx, em = pat.first(f.node, "V_maxq = max(V_row.values())")
-        ok = mx is not None and pat.first(f.node, f"V_row = {qp}[{sp}]", em)[0] is not None
-        comp = [n for n in ast.walk(f.node) if isinstance(n, ast.ListComp)]
-        ok = ok and bool(comp) and pat.m("[V_a for V_a in V_row.keys() if V_row[V_a] == V_maxq]", comp[0], em) is not None
-        ctx.check(ok, "POL-1", f, mx if mx is not None else f.node, "greedy policy: exact maximisers of the state's Q row", "", "greedy set is not {a : Q[s][a] == max Q[s]}")
+        Sp = pat.Snips(f, literals=[sp])
+        MAXQ = "V_maxq = max(V_row.values())"
+        sol = Sp.solve([f"V_row = {qp}[{sp}]", MAXQ, "[V_a for V_a in V_row.keys() if V_row[V_a] == V_maxq]"])
+        mx = sol[1][1] if sol else Sp.first(MAXQ)[0]
+        ctx.check(sol is not None, "POL-1", f, mx if mx is not None else f.node, "greedy policy: exact maximisers of the state's Q row", "", "greedy set is not {a : Q[s][a] == max Q[s]}")
         rets = [r for r in ast.walk(f.node) if isinstance(r, ast.Return)]
-        ctx.check(bool(rets) and all(isinstance(r.value, ast.Call) and ast.unparse(r.value.func).endswith("uniform") for r in rets), "POL-1", f, f.node, "uniform over the greedy set", "", "policy is not uniform over the greedy set")
+        ctx.check(bool(rets) and all(Sp.m("ANY.uniform(REST, REST=ANY)", r.value) is not None for r in rets), "POL-1", f, f.node, "uniform over the greedy set", "", "policy is not uniform over the greedy set")
         hs = [h for h in ast.walk(f.node) if isinstance(h, ast.ExceptHandler)]
-        ok = bool(hs) and any(pat.m(f"V_x = {cp.positional_params[1]}.actions({sp})", x) is not None for x in hs[0].body)
+        ok = bool(hs) and Sp.has(f"V_x = {cp.positional_params[1]}.actions({sp})", within=hs[0])
         ctx.check(ok, "POL-1", f, hs[0] if hs else f.node, "unknown states: all available actions", "", "fallback changed")
     else:
         ctx.violation("POL-1", cp, cp.node, "greedy policy closure", "policy closure vanished")
     to = C.methods["train_on"]
     mp_ = to.positional_params[1]
-    t1, e1 = pat.first(to.node, f"V_qm = self._training({mp_}, V_rng, V_el)")
-    t2, e2 = pat.first(to.node, f"V_q = self._create_q(V_qm, {mp_})", e1)
-    rets = [n for n in fn_body_nodes(to) if isinstance(n, ast.Return) and isinstance(n.value, ast.Call)]
-    ok = t1 is not None and t2 is not None and bool(rets) and kwarg(rets[0].value, "q_values") is not None and ast.unparse(kwarg(rets[0].value, "q_values")) == e2["q"] \
-        and kwarg(rets[0].value, "policy") is not None and ast.unparse(kwarg(rets[0].value, "policy")).replace(" ", "") == f"self._create_policy({mp_},{e2['q']})"
+    So = pat.Snips(to)
+    sol = So.solve([f"V_qm = self._training({mp_}, V_rng, V_el)", f"V_q = self._create_q(V_qm, {mp_})"])
+    rets = [n for n in fn_body_nodes(to) if isinstance(n, ast.Return)]
+    ok = sol is not None and bool(rets) and So.m(f"ANY(q_values=V_q, policy=self._create_policy({mp_}, V_q), REST=ANY)", rets[0].value, sol[0]) is not None
     ctx.check(ok, "WIRE-1", to, to.node, "train_on: Q dictionary and policy are built from the trained matrix", "", "train_on wiring changed")
-    tsrc = ast.unparse(to.node)
-    ctx.check(tsrc.index("self._init_training(") < tsrc.index("self._training("), "WIRE-1", to, to.node, "model is initialised before training", "", "initialisation order changed")
+    where = {nm: sorted((c.lineno, c.col_offset) for c in ast.walk(to.node) if isinstance(c, ast.Call) and pat.txt(c.func) == nm)
+             for nm in ("self._init_training", "self._training")}
+    ok = bool(where["self._init_training"]) and bool(where["self._training"]) and where["self._init_training"][0] < where["self._training"][0]
+    ctx.check(ok, "WIRE-1", to, to.node, "model is initialised before training", "", "initialisation order changed")
     actf = C.methods["_act"]
     stp, rngp = actf.positional_params[1:3]
-    asrc = ast.unparse(actf.node).replace(" ", "")
-    ok = f"{rngp}.choice(range(self.n_actions))" in asrc and f"np.argmax(self.q_matrix[{stp}])" in asrc
+    Sa = pat.Snips(actf)
+    ok = Sa.has(f"{rngp}.choice(range(self.n_actions))") and Sa.has(f"np.argmax(self.q_matrix[{stp}])")
     ctx.check(ok, "POL-1", actf, actf.node, "behaviour: greedy in the current Q row, random among all actions on full ties", "", "behaviour policy changed")
     arg_permutation_rule(ctx, G, [x for x in P.all_functions() if x.module.name == "msdm.algorithms.rmax"], "ARG")
     for rr, k in (("TEN-6", 5), ("ALG-4", 2), ("SIM-8", 6), ("VI-1", 10), ("SIM-1", 1), ("SIM-2", 2), ("SIM-3", 1), ("SIM-4", 2), ("OBS-1", 2),
